@@ -345,6 +345,10 @@ def jobs(tier, seed):
         js.append((f"key-dependence/{n}", "checks.C10", "run_key_dependence", {"name": n}))
     for gs, na in ([(3, 2)] if tier == "quick" else [(3, 2), (4, 2), (4, 3)]):
         js.append((f"connector-walk/{gs}x{na}", "checks.C10", "run_connector_walk", {"gs": gs, "na": na}))
+    js.append(("binpack-split/3x2x2/N4/k2", "checks.C10", "run_binpack_split", {"dims": (3, 2, 2), "N": 4, "k": 2}))
+    if tier == "thorough":
+        js.append(("binpack-split/4x3x2/N5/k3", "checks.C10", "run_binpack_split", {"dims": (4, 3, 2), "N": 5, "k": 3}))
+        js.append(("binpack-split/5x2x2/N6/k3", "checks.C10", "run_binpack_split", {"dims": (5, 2, 2), "N": 6, "k": 3}))
     js.append(("lbf-food/6x2", "checks.C10", "run_lbf_food", {"g": 6, "F": 2}))
     js.append(("lbf-food/8x6/edge", "checks.C10", "run_lbf_food", {"g": 8, "F": 6, "pairs": "none"}))   # density limit of the constructor's precondition
     if tier == "thorough":
@@ -610,3 +614,140 @@ def run_lbf_food(R, g, F, pairs="all"):
         R.prove(f"foods {j},{i} are neither on the same cell nor 4-adjacent", A,
                 (~(((dr == 0) & ((dc == 0) | (dc == 1) | (dc == -1))) | ((dc == 0) & ((dr == 1) | (dr == -1))))).term(), replay=rp)
     R.sample({"generator": "LBF RandomGenerator.sample_food", "grid": g, "food": F})
+
+
+# ------------------------------------------------------------------------------------------------ BinPack RandomGenerator: items exactly tile the container
+def _bp_J(sp, mask, dims, N):
+    """loop invariant of BinPack RandomGenerator's container splitting: every ACTIVE slot is a non-empty box inside the container
+    and every unit cell of the container lies in exactly one active box (= the active boxes tile the container exactly)"""
+    CX, CY, CZ = dims
+    x1, x2, y1, y2, z1, z2 = (vs(getattr(sp, f)) for f in ("x1", "x2", "y1", "y2", "z1", "z2"))
+    m = vs(mask)
+    ob = []
+    for i in range(N):
+        ob.append((f"slot {i}: if active, a non-empty box inside the container",
+                   m[i].implies((x1[i] >= 0) & (x1[i] < x2[i]) & (x2[i] <= CX) & (y1[i] >= 0) & (y1[i] < y2[i]) & (y2[i] <= CY) & (z1[i] >= 0) & (z1[i] < z2[i]) & (z2[i] <= CZ))))
+    for a in range(CX):
+        for b in range(CY):
+            ob.append((f"unit cells ({a},{b},*) each lie in exactly one active box",
+                       all_([count([m[i] & (x1[i] <= a) & (a < x2[i]) & (y1[i] <= b) & (b < y2[i]) & (z1[i] <= c) & (c < z2[i]) for i in range(N)]) == 1 for c in range(CZ)])))
+    return ob
+
+
+def run_binpack_split(R, dims, N, k):
+    """BinPack RandomGenerator: for EVERY key the generated items exactly tile the container and generate_solution is that tiling
+    (loop-invariant argument on the real code, like the Connector walk):
+      base  J on the real initial carry of the splitting loop (read off the traced generator);
+      step  J(S) and the loop condition => J after one real _split_space_into_sub_spaces (random axis, random item, split once /
+            into up to split_num_same_items equal parts incl. the float division and int truncation of the cut positions);
+      use   real generate_solution / __call__ with the loop summarised by a J-state: the solution places every item at its box
+            (location + length == box), the instance has the same items unplaced, one EMS = the container.
+    J states exact tiling pointwise (each unit cell in exactly one active box), so no counting over volumes is needed.
+    Partial correctness (termination of the splitting loop is not claimed)."""
+    from jumanji.environments.packing.bin_pack.generator import RandomGenerator
+    from jumanji.environments.packing.bin_pack.space import Space
+    gen = RandomGenerator(max_num_items=N, max_num_ems=N + 2, split_num_same_items=k, container_dims=dims)
+    F6 = ("x1", "x2", "y1", "y2", "z1", "z2")
+    ax = {"x": 0, "y": 1, "z": 2}
+    R.bound(container=dims, max_num_items=N, split_num_same_items=k, loop="summarised by invariant (base + step + use), any number of iterations",
+            draws="arbitrary within jax.random contracts", split_eps=gen._split_eps)
+
+    def sym_carry(ctx, tag):
+        sp = Space(**{f: ctx.fresh_arr(f"{tag}.{f}", (N,), np.int32, 0, dims[ax[f[0]]]) for f in F6})
+        mask = ctx.fresh_arr(f"{tag}.mask", (N,), np.bool_)
+        return sp, mask
+
+    # ---------------- step
+    ctx = Ctx(max_unroll=k + 1)
+    sp, mask = sym_carry(ctx, "B")
+    key = ctx.fresh_arr("B.key", (2,), np.uint32)
+    J0 = _bp_J(sp, mask, dims, N)
+    cond = count(list(vs(mask))) < N - k + 1
+    sp2, mask2 = S.call(ctx, gen._split_space_into_sub_spaces, sp, mask, key, R=R, name="RandomGenerator._split_space_into_sub_spaces")
+    R.nvars += 7 * N + 2
+    A = [v.z() for _, v in J0 if not (v.conc and bool(v))] + [cond.z()] + list(ctx.assumptions)
+    C.unwinding(R, ctx, A)
+    R.reach("tiling state with room for one more split", A)
+
+    def rp_step(nm):
+        def rp(model):
+            s_np = {f: jnp.asarray(S.model_sv(model, getattr(sp, f))) for f in F6}
+            m_np = jnp.asarray(S.model_sv(model, mask))
+            f_ = jax.jit(gen._split_space_into_sub_spaces)
+            for i in range(256):
+                o_sp, o_m = f_(Space(**s_np), m_np, jax.random.PRNGKey(i))
+                vals = dict(("step: " + n_, v_) for n_, v_ in _bp_J(S.conc_tree(jax.tree_util.tree_map(np.asarray, o_sp)), S.conc_tree(np.asarray(o_m)), dims, N))
+                if not bool(vals[nm]):
+                    return True, {"key": f"PRNGKey({i})", "boxes_before": {f: np.asarray(s_np[f]).tolist() for f in F6}, "mask_before": np.asarray(m_np).tolist(),
+                                  "boxes_after": {f: np.asarray(getattr(o_sp, f)).tolist() for f in F6}, "mask_after": np.asarray(o_m).tolist(), "obligation": nm}
+            return False, {"note": "no real key in 0..255 reproduces the model"}
+        return rp
+    for nm, v in [("step: " + n_, v_) for n_, v_ in _bp_J(sp2, mask2, dims, N)]:
+        R.prove(nm, A, v.term() if not v.conc else bool(v), replay=rp_step(nm))
+
+    # ---------------- base + use: the real generate_solution / __call__ with the splitting loop summarised
+    for label, fn in (("generate_solution", gen.generate_solution), ("__call__", gen.__call__)):
+        uctx = Ctx(max_unroll=k + 1)
+        seen = []
+
+        def summary(c_, eqn, carry, seen=seen):
+            # carry of the splitting loop = flattened (Space of (N,) arrays, mask (N,), key): 8 leaves
+            if len(carry) != 8 or tuple(carry[0].shape) != (N,):
+                return None
+            e_sp, e_mask = sym_carry(c_, "X")
+            out = jax.tree_util.tree_leaves((e_sp, e_mask, c_.fresh_arr("X.key", carry[-1].shape, carry[-1].dtype)), is_leaf=lambda x: isinstance(x, SV))
+            assert [tuple(o.shape) for o in out] == [tuple(x.shape) for x in carry], ([o.shape for o in out], [x.shape for x in carry])
+            ent = jax.tree_util.tree_unflatten(jax.tree_util.tree_structure((e_sp, e_mask, 0), is_leaf=lambda x: isinstance(x, SV)), list(carry))
+            seen.append((ent, e_sp, e_mask))
+            return out
+        uctx.while_summary = summary
+        ukey = uctx.fresh_arr("U.key", (2,), np.uint32)
+        st = S.call(uctx, fn, ukey, R=R, name=f"RandomGenerator.{label}")
+        if len(seen) != 1:
+            R.harness_errors.append(f"{R.job}: expected exactly one summarised splitting loop in {label}, found {len(seen)}")
+            return
+        (ent_sp, ent_mask, _), xsp, xmask = seen[0]
+        if label == "generate_solution":
+            for nm, v in _bp_J(ent_sp, ent_mask, dims, N):
+                R.prove("base: " + nm, list(uctx.assumptions), v.term() if not v.conc else bool(v), replay=None, internal=not True)
+        JX = _bp_J(xsp, xmask, dims, N)
+        UA = list(uctx.assumptions) + [v.z() for _, v in JX if not (v.conc and bool(v))]
+        R.reach(f"{label}: loop exit state (J and not cond)", UA)
+        it, loc = st.items, st.items_location
+        m = vs(xmask)
+        use = []
+        for i in range(N):
+            box = [vs(getattr(xsp, f))[i] for f in F6]
+            use.append((f"{label}: item {i}: lengths and location are those of its box (x_len = x2-x1, location = (x1,y1,z1)); item mask = loop mask",
+                        (vs(st.items_mask)[i].iff(m[i])) & m[i].implies((vs(it.x_len)[i] == box[1] - box[0]) & (vs(it.y_len)[i] == box[3] - box[2]) & (vs(it.z_len)[i] == box[5] - box[4])
+                                                                       & ((vs(loc.x)[i] == box[0]) & (vs(loc.y)[i] == box[2]) & (vs(loc.z)[i] == box[4]) if label == "generate_solution" else X.TRUE))))
+        if label == "generate_solution":
+            use.append((f"{label}: every item is placed (items_placed == items_mask): the solution is the exact tiling J", all_([vs(st.items_placed)[i].iff(vs(st.items_mask)[i]) for i in range(N)])))
+        else:
+            use.append((f"{label}: no item is placed, all locations are 0, exactly one EMS (= the container) is active",
+                        all_([~vs(st.items_placed)[i] & (vs(loc.x)[i] == 0) & (vs(loc.y)[i] == 0) & (vs(loc.z)[i] == 0) for i in range(N)])
+                        & vs(st.ems_mask)[0] & all_([~vs(st.ems_mask)[j] for j in range(1, N + 2)])
+                        & (vs(st.ems.x1)[0] == 0) & (vs(st.ems.x2)[0] == dims[0]) & (vs(st.ems.y1)[0] == 0) & (vs(st.ems.y2)[0] == dims[1]) & (vs(st.ems.z1)[0] == 0) & (vs(st.ems.z2)[0] == dims[2])))
+        use.append((f"{label}: container is {dims}", (vs(st.container.x1) == 0) & (vs(st.container.x2) == dims[0]) & (vs(st.container.y1) == 0) & (vs(st.container.y2) == dims[1])
+                    & (vs(st.container.z1) == 0) & (vs(st.container.z2) == dims[2])))
+
+        def rp_use(model, label=label, fn=fn):
+            f_ = jax.jit(fn)
+            for i in range(128):
+                s_ = jax.tree_util.tree_map(np.asarray, f_(jax.random.PRNGKey(i)))
+                mk = np.asarray(s_.items_mask)
+                L = np.stack([s_.items.x_len, s_.items.y_len, s_.items.z_len], 1)[mk]
+                P_ = np.stack([s_.items_location.x, s_.items_location.y, s_.items_location.z], 1)[mk]
+                vol = int(L.prod(1).sum())
+                ok = vol == dims[0] * dims[1] * dims[2] and bool((L > 0).all())
+                if label == "generate_solution":
+                    occ = np.zeros(dims, np.int32)
+                    for p_, l_ in zip(P_, L):
+                        occ[p_[0]:p_[0] + l_[0], p_[1]:p_[1] + l_[1], p_[2]:p_[2] + l_[2]] += 1
+                    ok = ok and bool((occ == 1).all()) and bool((np.asarray(s_.items_placed) == mk).all())
+                if not ok:
+                    return True, {"key": f"PRNGKey({i})", "function": label, "item_lengths": L.tolist(), "locations": P_.tolist()}
+            return False, {"note": "no real key in 0..127 reproduces the model"}
+        for nm, v in use:
+            R.prove(nm, UA, v.term() if not v.conc else bool(v), replay=rp_use)
+    R.sample({"generator": "BinPack RandomGenerator", "container": dims, "max_num_items": N, "split_num_same_items": k})
